@@ -60,7 +60,7 @@ func (c *irCtx) cond(e ev) string {
 	switch {
 	case t == "err != nil || !info.IsDir()":
 		return "NOT CIsDir"
-	case t == "subErr == nil && IsSymLink(info)", strings.HasPrefix(t, "IsPathExcluded"), t == `dir == ""`, t == `dir == "" || !fs.Exists(dir)`, t == "!fs.Exists(dir)", t == "list == nil", t == "limits == nil", t == "owner == nil":
+	case t == "subErr == nil && IsSymLink(info)", t == "lErr == nil && IsSymLink(info)", strings.HasPrefix(t, "IsPathExcluded"), t == `dir == ""`, t == `dir == "" || !fs.Exists(dir)`, t == "!fs.Exists(dir)", t == "list == nil", t == "limits == nil", t == "owner == nil":
 		return "CFalse" // no links, no exclusion, existing paths, valid arguments on the modelled runs
 	case t == "isDir && !isEmpty":
 		if c.cleaned {
